@@ -14,7 +14,7 @@ CLAIMED = {
         "position pairs i<j, each once. The model functions are tied to /repo on every run by evaluating them "
         "inside Coq on every interval pair over a bounded range plus random assemblies and comparing with "
         "Fragment.overlaps/overlap_length/abuts/gap_between and Assembly.find_overlapping_fragments "
-        "(and asm-format --qc-overlaps stderr through an independent oracle).",
+        "(and asm-format --qc-overlaps stderr, on STDIN and on two input files, through an independent oracle).",
         "Trusted: Coq kernel+VM; hand-written Gallina reading of fragment.py/assembly.py (scan order, None for "
         "empty); serializer; correspondence is differential on generated cases, not a proof about Python. "
         "Print Assumptions: closed under the global context for all 8 theorems.",
@@ -169,21 +169,27 @@ CLAIMED.update({
             "chromosome report incl. its text) is compared with the real pretext_to_asm.cli on every generated case (recording "
             "get_output_filehandle) and on real files for FASTA/AGP/TPF outputs.",
             "Coq proof (case analysis, fold invariant over the fusion) + in-Coq correspondence + routing oracle", "DESIGN.md 6/C09"),
-    "C10": ("Coq theorems: rename_by_size = same names, objects in non-increasing length, stable; H_n / _unloc_n handed out "
+    "C10": ("Coq theorems: C10_names_unique_single_haplotype -- end to end through `remap`, every output assembly of every "
+            "completed run has pairwise distinct scaffold names when the generated namespaces are respected and no haplotype "
+            "occurs (all hypotheses on the input and the map); C10_names_unique with haplotypes under two further conditions on "
+            "the fused scaffolds; fusion keys pairwise distinct for every run; a repeated name is one of three named collisions; "
+            "rename_by_size = same names, objects in non-increasing length, stable; H_n / _unloc_n handed out "
             "without holes; chromosome groups numbered 1..n by non-increasing length (stable); single-haplotype grouping total "
             "and renaming names only; effect of naming on <Pretext name><suffix>; A,B,.. suffixes; output order total (C20) with "
             "unloc-between; chromosome list: one line per rank-1/2 scaffold, line shape, and for chromosomes listed as main "
-            "scaffold + unlocs localised = no exactly for the unlocs with the chromosome's name (csv_groups). Name uniqueness "
-            "over a whole run and multi-haplotype grouping are decided by the "
-            "correspondence of the pipeline model and the oracle; the CSV text and the chromosome report are also compared. One known finding (orphan unloc listed as localised). " + PIPE,
-            NOTE, "Coq proof (sorting lemmas, fold invariants) + in-Coq correspondence + naming/CSV oracle (partial for uniqueness / multi-haplotype)",
+            "scaffold + unlocs localised = no exactly for the unlocs with the chromosome's name (csv_groups). Multi-haplotype "
+            "grouping and uniqueness beyond the stated conditions are decided by the correspondence of the pipeline model and "
+            "the oracle on every case; the CSV text and the chromosome report are also compared. Two known findings, both also "
+            "theorems about the model: an orphan unloc is listed as localised; two same-named tagged scaffolds of different "
+            "haplotypes land in one tag-keyed assembly (found by the uniqueness proof, reproduced on /repo). " + PIPE,
+            NOTE, "Coq proof (label invariant through the pipeline, sorting lemmas, fold invariants) + in-Coq correspondence + naming/CSV oracle (partial for multi-haplotype)",
             "DESIGN.md 6/C10, 13"),
     "C11": ("Coq theorems: the canonical junction identifies the unordered pair of facing contig ends (with sides, 1-bp contigs "
             "included); reading a junction from the other side gives the same canonical junction; the junction set of a scaffold "
             "equals that of its reverse; strand 0 is an error; list-based union/difference/intersection have their set meaning; "
             "cuts = output fragments - input contigs for every completed run (from the C01 invariant); the pinned commit's "
             "encoding is refuted (fixed). " + PIPE + "Oracle recounts adjacencies independently.",
-            NOTE + "*.info.yaml is exercised through the CLI in C16/C17 only.",
+            NOTE + "The haplotig-removal count is read from the info.yaml text the real cli writes (recording file handle) and compared with the haplotig scaffolds written.",
             "Coq proof (case analysis on strands, order lemmas, counting invariant) + in-Coq correspondence + adjacency oracle", "DESIGN.md 6/C11"),
     "C13": ("Coq theorems: index_fasta gives the same index and assembly for EVERY byte string and ALL buffer sizes; the sequence "
             "buffer never exceeds buffer + one line (ghost peak); forward/reverse/gap iterators deliver ceil(len/buf) chunks of "
@@ -196,16 +202,17 @@ CLAIMED.update({
             "time stamps, crashes, any number of processes). Each run replays real FastaIndex.auto_load() executions -- crash at "
             "EVERY file operation of an indexing run, random histories, every single pre-emption of two racing processes and "
             "random 2-3 process schedules -- under a deterministic shim, feeds the observed operation trace to the model in Coq "
-            "and compares each process's outcome; oracle: a completed auto-load must equal a fresh index of the current content. "
-            "Coq: the pinned commit's in-place rewrite is refuted (race witness); the safety theorems are being added "
-            "(Proofs/CacheFS.v). Fixed in /repo by atomic cache writes.",
+            "and compares each process's outcome; oracle: a completed auto-load must equal a fresh index of the current content; "
+            "a quarter of the histories reach the FASTA through a symbolic link. Coq (Proofs/CacheFS.v): safety of the protocol "
+            "model at completion, visible cache files are complete, stale or missing caches are rebuilt; the pinned commit's "
+            "in-place rewrite is refuted (race witness). Fixed in /repo by atomic cache writes.",
             NOTE + "Runtime residue: kernel scheduling, rename atomicity and mtime granularity are as modelled (logical stamps, thread-simulated processes).",
             "in-Coq trace validation of real executions (crash/schedule enumeration) + freshness oracle; Coq safety proof of the protocol model", "DESIGN.md 6/C15"),
     "C16": ("Coq theorems about the open protocol: with --no-clobber every pre-existing file keeps its bytes, the run fails "
             "exactly at the first output (in open order) that pre-exists and names it, earlier outputs were newly created, later "
             "ones untouched, fails iff some output pre-exists; with --clobber it succeeds and every output holds what the run "
             "writes. Each run drives the real CLI in process over {FASTA, AGP, TPF} x log on/off x single/multi-assembly for all "
-            "(<= 6 outputs) or sampled subsets of pre-existing files and lets Coq compare exit status, named file and the digest "
+            "(<= 6 outputs) or sampled subsets of pre-existing files (some of them zero-length) and lets Coq compare exit status, named file and the digest "
             "of every file with the model's prediction.",
             NOTE + "That Python's mode 'x' is an atomic exclusive create is trusted; the open order is taken from a baseline run.",
             "Coq proof (induction over the open list) + in-Coq correspondence of CLI runs over subsets", "DESIGN.md 6/C16"),
@@ -213,7 +220,7 @@ CLAIMED.update({
             "iterated), indexing is buffer-size independent (C13), AGP round trip (C05) for the cache; the model is a function, "
             "so there is no hidden state. Runtime part (partial): every tag set in EVERY order against the model and each other; "
             "generated (FASTA, Pretext) pairs through the CLI in fresh processes under several PYTHONHASHSEED values, two "
-            "working directories, cold/warm cache, FASTA/AGP/TPF input, and after other in-process invocations, all output "
+            "working directories, cold/warm cache, three other index/stream buffer sizes, FASTA/AGP/TPF input, and after other in-process invocations, all output "
             "files byte-identical. One defect found and fixed (empty tag made the outcome depend on the hash seed).",
             NOTE + "Hash seed, interpreter-global state and cwd are runtime residue explored by sampling.",
             "Coq proof (permutation invariance) + in-Coq correspondence over all tag orders + CLI re-runs under varied configuration", "DESIGN.md 6/C17"),
